@@ -526,7 +526,10 @@ func (c *ExpressionCalculator) evaluateOther(
 			if err != nil {
 				return false, err
 			}
-			result = variants.VariantFromBoolean(!result.AsBoolean())
+			// Null propagates through IN, only a boolean result can be negated
+			if result.Type() == variants.Boolean {
+				result = variants.VariantFromBoolean(!result.AsBoolean())
+			}
 			stack.Push(result)
 			return true, nil
 		}
